@@ -811,7 +811,8 @@ def impl_bookkeeping(per_chr, high_memory):
     try:
         DP.collect_reads_in_parallel, DP.BasicReadAssignmentLoader, DP.MultimapResolver = fake_collect, FakeLoader, ToyResolver
         dp = object.__new__(DP.DatasetProcessor)
-        dp.args = SimpleNamespace(threads=1, high_memory=high_memory, resume=False, multimap_strategy=None, keep_tmp=True)
+        dp.args = SimpleNamespace(threads=1, high_memory=high_memory, resume=False, multimap_strategy=None, keep_tmp=True,
+                                  read_group=None)      # written to `_info` by collect_reads (run set-up of a restart)
         dp.alignment_stat_counter = EnumStats()
         dp.gffutils_db = None           # read by warn_about_skipped_sequences (fix b09aace)
         dp.reference_record_dict = {c: "A" * (30 - 10 * i) for i, c in enumerate(BOOK_CHRS)}
